@@ -238,9 +238,9 @@ def check_log(run, log, dynamics):
     for o in log:
         k = o[0]
         if k == 'post':
-            _, clock, t, e, name, res, _proc = o
-            if not isinstance(res, int) or isinstance(res, bool):
-                if res == 'ValueError':
+            _, clock, t, e, name, res, _proc, exc = o
+            if exc is not None or res is None:
+                if exc == 'ValueError':
                     if not (t < clock):
                         bad('post-rejected-though-not-in-the-past', entry=o)
                 else:
@@ -388,9 +388,9 @@ def check_log(run, log, dynamics):
                 ctx.pop()
         elif k == 'end':
             _, end, clock, pending = o
-            impl = sorted([p[0], p[1]] for p in pending)
-            mine = sorted([iid[j], x[0]] for j, x in ref.live.items())
-            if impl != mine:
+            impl = sorted(([p[0], p[1]] for p in pending), key=str) if pending is not None else None
+            mine = sorted(([iid[j], x[0]] for j, x in ref.live.items()), key=str)
+            if impl is not None and impl != mine:
                 bad('pending-set-differs-at-end', only_in_implementation=[p for p in impl if p not in mine][:6],
                     only_in_reference=[p for p in mine if p not in impl][:6])
             if end is not None and dynamics == 'stochastic':
@@ -416,7 +416,7 @@ def direct_shipped(case, obs):
         want = 2 if case.get('prerun') else 1
         ends = sum(1 for r in obs.get('runs', []) for o in r['log'] if o[0] == 'end')
         if len(obs.get('runs', [])) != want or ends != want:
-            v.append({'signature': 'harness:spy-saw-wrong-number-of-runs', 'kind': 'harness', 'detail': {'runs': len(obs.get('runs', [])), 'ends': ends}})
+            v.append({'signature': 'spy-saw-wrong-number-of-runs', 'kind': 'harness', 'detail': {'runs': len(obs.get('runs', [])), 'ends': ends}})
     seen = {}
     for x in v:
         seen.setdefault(x['signature'], x)
@@ -449,7 +449,7 @@ class H(Harness):
             'judged); observed by the queue spy (queue API wrapped on the Dynamics instance, every posted function wrapped, probes of '
             'pendingEventTime after every un-post, of every fired id at the next firing and of every id at the end of the run); '
             'non-trivial = at least 3 posted events fired and an un-post, an equal-time tie, a repetition or a post from inside a handler; '
-            'distinct by the whole case')
+            'distinct by the whole case. corpus/C04: nine shipped-process runs that exposed mutated queues during development (run first)')
     TRUSTED = ['Coq 8.16.1 kernel incl. vm_compute', 'harness/kscript.py, harness/kcommon.py, vlib/oracle.py',
                'CPython heapq modelled as: pop returns the minimum under (time, id); dict as a finite map',
                'shipped family: harness/queuespy.py (instance-level wrappers of setUp, postEvent, postRepeatingEvent, unpostEvent, '
@@ -464,7 +464,10 @@ class H(Harness):
                    'shipped family, repeating events: D identifies the library\'s re-post as the post made inside the firing of a repetition but '
                    'outside the user\'s function, and compares repetition times with t0 + k*dt at relative 1e-9 (generated intervals are dyadic)',
                    'the end-of-run clause is demanded under stochastic dynamics only; under both dynamics every return of runPendingEvents(b) '
-                   'must leave no live event due at or before b']
+                   'must leave no live event due at or before b',
+                   'a run (of either family) in which runPendingEvents is called thousands of times is cut short by the harness and judged on '
+                   'the log so far (script family: reported as run-does-not-terminate); a script run that raised is reported by D and not '
+                   'sent to Coq (never the case on the pinned tree)']
 
     def gen_cases(self, tier, rnd, n):
         import random
@@ -616,7 +619,7 @@ class H(Harness):
                     depth += 1
                 elif o[0] == 'fire-exit':
                     depth -= 1
-                elif o[0] == 'post' and depth > 0:
+                elif o[0] == 'post' and depth > 0 and o[7] is None:
                     nested = True
             if len(fires) >= 3 and (ties or unposts or reps or nested):
                 return 'shipped:' + json.dumps({k: v for k, v in case.items() if not k.startswith('_')}, sort_keys=True, default=str)
